@@ -464,7 +464,7 @@ def _(c):
 def _cmp_counts(c, prop, left, right):
     """eq / partial_cmp between two values compares left(count) with right(count), receiver from self"""
     if c.key.endswith('::eq'):
-        for (st, ret) in c.exits:
+        for (st, ret) in getattr(c, 'raw_exits', c.exits):
             ok = False
             why = f"{ret!r}"
             if isinstance(ret, VBool):
@@ -869,13 +869,12 @@ def _month_shift(c, name, sign, ts):
                 continue
             # the one whose julian form mentions the root's own count symbol
             jf = Form(jkey[0], jkey[1])
-            mine = any(base.coeff(s2) for s2, _ in jf.terms) or any(SYMTAB.syms[s2].kind == 'div' and any(base.coeff(s3) for s3, _ in SYMTAB.syms[s2].data[0].terms) for s2, _ in jf.terms)
             # the decomposition taken on *this* path: its day symbol occurs in the K2 facts of the state
             live = any(F_.coeff(ds) for F_ in st.num.facts)
-            if mine and live:
-                found = (ys, ms, ds)
-        if found is None:
-            c.rec('C09', f"{name}: error exits refer to the decomposition of self", False, f"{v}")
+            if live:
+                found = (ys, ms, ds) if found is None else 'ambiguous' 
+        if found is None or found == 'ambiguous':
+            c.rec('C09', f"{name}: error exits refer to the decomposition of self", False, f"{v} ({found})")
             continue
         ys, ms, ds = found
         T = Form.sym(ys, 12).add(Form.sym(ms)).addc(-1).add(k.scale(sign))
@@ -950,14 +949,27 @@ def _split_exits(I, exits):
                     out.append((st, VAdt(ret.ty, {k: fs})))
                 else:
                     out.append((st, VAdt(ret.ty, {k: fs})))
+        elif isinstance(ret, VBool) and ret.val is None:
+            # an undecided boolean result (last operand of an && / || chain): one exit per truth value
+            p = I.bool_pred(ret)
+            got = False
+            if p is not None:
+                for truth in (True, False):
+                    for s2 in I.assume(st.copy(), p, truth):
+                        out.append((s2, VBool(truth)))
+                        got = True
+            if not got:
+                out.append((st, ret))
         else:
             out.append((st, ret))
     return out
 
 
 def run_contracts(I, key, args, exits, variant=None):
+    raw = exits
     exits = _split_exits(I, exits)
     ctx = Ctx(I, key, args, exits, variant)
+    ctx.raw_exits = raw
     if variant is not None and variant.startswith('pic:'):
         try:
             from .pictures import picture_contract
